@@ -19,6 +19,12 @@ CHECKS = {
         'with offset/count/index ranging over all of size_t (loop-free, complete).',
    note=PROOF_NOTE + 'Parent size is bounded by 65536 elements (verifier object size); element type int; reverse_iterator modelled as a struct holding the base pointer; exception message text dropped.',
    technique='CBMC code contracts (DFCC) on mechanically lowered instantiations; full-domain SAT', design='4 C16'),
+ 'C13': dict(
+   text='base64encode and base64decode are lowered from the header on every run and proved against RFC 4648 spec terms with inductive loop contracts for inputs of symbolic length up to 10^6 bytes over the full 0..255 byte range: '
+        'encode: length 4*ceil(n/3), character g = alphabet(sextet g) or padding; decode: stops exactly at the first non-alphabet byte (or the end), returns floor(6p/8) bytes, each equal to the sextet-stream byte, '
+        'with every table index and input read inside bounds (pointer/bounds obligations); a separate spec-level lemma proves dec(enc(s)) == s for all s.',
+   note=PROOF_NOTE + 'std::string storage model; ghost let-bindings as total definitions; constant-trip loops unwound with unwinding assertions (complete); round trip = two contracts + lemma, composed by a meta-argument.',
+   technique='CBMC code contracts with loop invariants (DFCC) on mechanically lowered code + spec lemma', design='4 C13'),
 }
 NA = {
  'C05': 'variant lifetimes under exceptions, placement-new into a recursive union and visitation tables built from lambdas: no C++ exception/lifetime semantics in CBMC and no faithful mechanical lowering; a hand-written model would be a different technique (DESIGN.md 6)',
